@@ -15,7 +15,12 @@ use std::sync::OnceLock;
 pub type FxHasher = AHasher;
 
 /// A fast hash builder using aHash.
+#[cfg(not(grafeo_verif))]
 pub type FxBuildHasher = ahash::RandomState;
+/// Simulation builds: same hasher with fixed keys, so iteration order is a function of the
+/// operation history alone (one seed = one execution).
+#[cfg(grafeo_verif)]
+pub type FxBuildHasher = crate::verif::FixedAHashState;
 
 /// A `HashMap` using fast hashing.
 pub type FxHashMap<K, V> = hashbrown::HashMap<K, V, FxBuildHasher>;
@@ -27,6 +32,9 @@ pub type FxHashSet<T> = hashbrown::HashSet<T, FxBuildHasher>;
 static HASH_STATE: OnceLock<ahash::RandomState> = OnceLock::new();
 
 fn get_hash_state() -> &'static ahash::RandomState {
+    #[cfg(grafeo_verif)]
+    return HASH_STATE.get_or_init(|| ahash::RandomState::with_seeds(1, 2, 3, 4));
+    #[cfg(not(grafeo_verif))]
     HASH_STATE.get_or_init(ahash::RandomState::new)
 }
 
